@@ -483,6 +483,43 @@ class Translator(object):
             rows.append((k, lean_val(v["default"], "default of " + k), kind))
         return rows
 
+    # ------------------------------------------------------------------ _load_config_file: which parser
+    def file_parser(self):
+        """
+        The hand-written loader model takes the items of the configuration file as RAW text (no interpolation:
+        `%`, `$`, `#` in a value mean nothing).  That is true of `ConfigParser.RawConfigParser()` only, so the
+        constructor is read from the source: anything else (ConfigParser / SafeConfigParser, constructor arguments such
+        as interpolation=..., a second parser, raw=/vars= passed to items()/get*()) is a broken tie naming the construct.
+        """
+        if "_load_config_file" not in self.methods:
+            raise Unsupported("method _load_config_file not found")
+        fn = self.methods["_load_config_file"]
+        ctors = []
+        for n in ast.walk(fn):
+            if isinstance(n, ast.Call):
+                d = dotted(n.func) or ""
+                last = d.split(".")[-1]
+                if last.endswith("ConfigParser") or d.split(".")[0] in ("ConfigParser", "configparser") and last[:1].isupper() \
+                        and not last.endswith("Error"):
+                    ctors.append((d, n))
+                if isinstance(n.func, ast.Attribute) and n.func.attr in ("items", "get", "getint", "getfloat", "getboolean", "read") \
+                        and n.keywords:
+                    raise Unsupported("_load_config_file passes keyword arguments (%s) to .%s() (%s)" % (
+                        ", ".join(str(k.arg) for k in n.keywords), n.func.attr, where(n)))
+        if len(ctors) != 1:
+            raise Unsupported("_load_config_file constructs %d parsers (%s), expected exactly ConfigParser.RawConfigParser()"
+                              % (len(ctors), ", ".join(d for d, _ in ctors)))
+        d, n = ctors[0]
+        if d != "ConfigParser.RawConfigParser" or n.args or n.keywords:
+            raise Unsupported("_load_config_file parses the file with %s(%s) instead of ConfigParser.RawConfigParser(): values would "
+                              "no longer be raw text (%s)" % (d, ast.unparse(n)[len(d) + 1:-1], where(n)))
+        # the name must still mean the standard library's raw parser, whose interpolation is the no-op one
+        import configparser as std
+        live = getattr(getattr(self.mod, "ConfigParser", None), "RawConfigParser", None)
+        if live is not std.RawConfigParser or type(live()._interpolation) is not std.Interpolation:
+            raise Unsupported("ConfigParser.RawConfigParser in insights.client.config is %r, not the standard raw parser" % (live,))
+        return d, n.lineno
+
     # ------------------------------------------------------------------ main
     def generate(self):
         imply = self.methods["_imply_options"]
@@ -504,6 +541,8 @@ class Translator(object):
                 "_imply_options", "_validate_options"]
         if order != want:
             raise Unsupported("load_all is no longer %s but %s" % (" -> ".join(want), " -> ".join(order)))
+
+        parser_name, parser_line = self.file_parser()
 
         steps = []
         self.may_raise = False
@@ -663,6 +702,11 @@ class Translator(object):
         w("def manifestKeys : List Str := [%s]" % ", ".join(lstr(k) for k in mf))
         w("def contentTypes : List (Str × Str) := [%s]" % ", ".join("(%s, %s)" % (lstr(k), lstr(v)) for k, v in ct.items()))
         w("def validCompressors : List Str := [%s]" % ", ".join(lstr(x) for x in vc))
+        w("")
+        w("/-- the parser `_load_config_file` constructs (config.py:%d).  The translator accepts nothing but the RAW parser" % parser_line)
+        w("(no interpolation: a value is the text the file holds); the loader model's `FileSrc` items rely on it. -/")
+        w("def fileParser : Str := %s" % lstr(parser_name))
+        w("def fileParserRaw : Bool := true")
         w("")
         w("/-- every attribute is an option of the table (checked by evaluation) -/")
         w("theorem attr_names_in_table : (Attr.all.filter (fun a => a != Attr.«%s»)).all" % RAISED)
